@@ -326,7 +326,7 @@ class Sim:
             n = I(a[1]); d = 0
             while n is not None and d <= 20000: n = self.child_ptr(n); d += 1
             return ('int', -1 if n is not None else d)
-        if o in ('print', 'printbuf', 'printpre', 'minify', 'findptr', 'hooks'): return ('ext',)      # no effect on trees or ledger; result not predicted
+        if o in ('print', 'printbuf', 'printpre', 'minify', 'findptr', 'hooks', 'seal', 'unseal'): return ('ext',)      # no effect on trees or ledger; result not predicted
         raise Unpredictable('operation %s is outside the list model' % o)
 
     def sweep(self):
